@@ -11,7 +11,7 @@
 
 #include <ufw/byte-buffer.h>
 
-#define MAXSIZE 6
+#define MAXSIZE 8
 static const unsigned char ALPHA[3] = { 0x00, 0xa1, 0xb2 };
 
 enum opkind { OP_ADD, OP_CONSUME, OP_ATMOST, OP_REWIND, OP_RESET, OP_CLEAR, OP_REPEAT };
@@ -96,9 +96,9 @@ explore(size_t size)
             char on[64];
             if (mc_would_run() && path[0] == 0)
                 mc_set_path(&set, cur, path, sizeof path);
-            mc_case("size=%zu state=(used=%u,off=%u,img=%02x%02x%02x%02x%02x%02x) path=[%s] op=%d:%s",
+            mc_case("size=%zu state=(used=%u,off=%u,img=%02x%02x%02x%02x%02x%02x%02x%02x) path=[%s] op=%d:%s",
                     size, k.used, k.offset, k.img[0], k.img[1], k.img[2], k.img[3],
-                    k.img[4], k.img[5], path, oi, opname(o, on, sizeof on));
+                    k.img[4], k.img[5], k.img[6], k.img[7], path, oi, opname(o, on, sizeof on));
             mc_trans(1);
             /* real object on an exact-size heap block: ASan guards both ends */
             unsigned char *mem = mc_exact_copy(k.img, size);
@@ -280,7 +280,7 @@ explore(size_t size)
         }
     }
     mc.states += (int64_t)set.n;
-    if (!saw_wrap && size > 1 && mc.only < 0)
+    if (!saw_wrap && size > 1 && mc.only < 0 && mc.violations == 0)
         mc_broken("vacuous: no rewind of a partly consumed buffer at size %zu", size);
     mc_set_free(&set);
 }
@@ -345,8 +345,11 @@ int
 main(int argc, char **argv)
 {
     mc_init(argc, argv);
-    const size_t maxsize = mc_thorough() ? 6 : 4;
+    const size_t maxsize = mc_thorough() ? 8 : 5;
     for (size_t size = 1; size <= maxsize; ++size) {
+        /* one partition per buffer size: the searches are independent */
+        if (!mc_partition((int)(maxsize - size), (int64_t)size))
+            continue;
         explore(size);
         setup_matrix(size);
     }
